@@ -10,6 +10,7 @@ import time
 
 from vlib import ref, run, seqx, tables
 from checks.c09 import merge
+from vlib.run import V
 
 PROP = "C10"
 
@@ -79,14 +80,77 @@ def seeds(keys):
     return [("empty", None, seqx.new_model()), ("ref-written: tombstone first/middle/last + foreign record", snap, m)]
 
 
+def long_bucket_worker(ctx, job):
+    """A key re-written many times with records of several KiB (bucket file grows to tens of KiB), interleaved with
+    removals: after every step list_sync must agree with lookup, entry for entry."""
+    from vlib import fsutil, wr
+    from vlib.model import check_listing
+    from vlib.run import classify
+    res = V.new()
+    flavour = job["flavour"]
+    srv = ctx.srv(flavour)
+    cache = ctx.fresh("c10l-")
+    model = seqx.new_model()
+    a, b, c = tables.key_family()
+    hist = []
+    for i in range(job["steps"]):
+        key = a if i % 4 != 3 else b
+        side = "s" if (i % 2 == 0 or flavour == "sync") else "a"
+        if i % 7 == 5:
+            rep = srv.call({"op": "remove_sync" if side == "s" else "remove", "cache": cache, "key": key})
+            model.remove(key)
+            hist.append("R(%s)" % key)
+        else:
+            meta = {"blob": "x" * (job["meta_bytes"] + 37 * i), "i": i}
+            raw = bytes(range(256)) * (1 + i % 3)
+            n = 3 + i
+            opts = {"time": str(1000 - i), "metadata": meta, "raw_metadata": raw.hex()}
+            rep, _ = wr.do_write(srv, cache, side=side, entry="open", key=key, algo="sha256", n=n, tag=i, opts=opts)
+            data = ref.gen(n, i)
+            model.write(key, ctx.sri("sha256", data), data, size=n, time=1000 - i, metadata=meta, raw_metadata=raw)
+            hist.append("W(%s,%dB metadata)" % (key, len(meta["blob"])))
+        res["evals"] += 1
+        res["transitions"] += 1
+        res["distinct"].add(V.h("long", flavour, i))
+        replay = {"engine": "seqx", "mode": "long-bucket", "flavour": flavour, "history": list(hist)}
+        if "ok" not in rep:
+            V.violation(res, "ls:long-bucket:step-%s" % classify(rep), "step %s failed: %r" % (hist[-1], rep), replay)
+            break
+        lst = srv.call({"op": "list_sync", "cache": cache})
+        bads = []
+        check_listing(lambda what, sig, extra: bads.append((sig, what)), lst, model, cache)
+        if bads:
+            V.violation(res, "ls:long-bucket:%s" % bads[0][0], "after %d steps (bucket of %d bytes): %s" % (
+                i + 1, os.path.getsize(os.path.join(cache, ref.bucket_rel(a))), bads[0][1][:300]), replay)
+            break
+        for k in (a, b):
+            m_ = srv.call({"op": "metadata_sync", "cache": cache, "key": k})
+            from vlib.model import entry_matches, entry_of_reply
+            if "ok" not in m_ or not entry_matches(entry_of_reply(m_["ok"]), model.index.get(k), k):
+                V.violation(res, "ls:long-bucket:lookup-differs", "metadata_sync(%r) disagrees with the model after %s" % (k, hist[-1]), replay)
+        V.outcome(res, "long-bucket-step-ok")
+    res["extra"]["long_bucket_final_bytes"] = os.path.getsize(os.path.join(cache, ref.bucket_rel(a))) if os.path.exists(os.path.join(cache, ref.bucket_rel(a))) else 0
+    fsutil.wipe(cache)
+    res["samples"].append({"kind": "long-bucket", "flavour": flavour, "steps": job["steps"], "history_tail": hist[-3:]})
+    return res
+
+
 def main(tier, seed=0):
     t0 = time.time()
     if tier == "quick":
         runs = [C10Spec("astd", 3, ("s", "a")), C10Spec("sync", 4, ("s",))]
     else:
         runs = [C10Spec("astd", 5, ("s", "a")), C10Spec("sync", 6, ("s",)), C10Spec("tok", 4, ("s", "a"))]
-    total = None
-    merr_all = []
+    import checks.c16 as c16
+    old = c16.worker
+    c16.worker = long_bucket_worker
+    try:
+        lb_jobs = [{"flavour": f, "steps": 24 if tier == "quick" else 60, "meta_bytes": mb} for f in ("sync", "astd", "tok") for mb in (900, 6000)]
+        total, merr_all = c16._collect(tier, lb_jobs, seed)
+    finally:
+        c16.worker = old
+    total["extra"] = {"runs": {}, "long_bucket_jobs": len(lb_jobs)}
+    total["distinct"] = set(total["distinct"])
     capped_any = False
     for spec in runs:
         agg, merr, capped, wall = seqx.bfs(spec, tier, seeds=seeds(spec.keys), level="model_checking", rule="", technique="", finish=False,
